@@ -252,6 +252,7 @@ func ruleHash(state *core.BuildState, target *core.BuildTarget, runtime bool) []
 				h.Write([]byte(output))
 			}
 			hashOptionalBool(h, target.Test.Sandbox)
+			hashOptionalBool(h, target.Test.NoOutput)
 			h.Write([]byte(target.GetTestCommand(state)))
 			h.Write([]byte(target.Test.ArgsPlaceholder))
 		}
@@ -445,11 +446,15 @@ func RuntimeHash(state *core.BuildState, target *core.BuildTarget, testRun int) 
 	hash := append(RuleHash(state, target, true, false), RuleHash(state, target, true, true)...)
 	hash = append(hash, state.Hashes.Config...)
 	h := sha1.New()
-	for src := range core.IterRuntimeFiles(state.Graph, target, true, target.TestDir(testRun)) {
+	for src, out := range core.IterRuntimeFiles(state.Graph, target, false, "") {
 		result, err := state.PathHasher.Hash(src, false, true, false)
 		if err != nil {
 			return result, err
 		}
+		// The path the file has at test time matters as well as its contents: a renamed data file or
+		// dependency output is a different input to the test.
+		h.Write([]byte(out))
+		h.Write([]byte{0})
 		h.Write(result)
 	}
 	return append(hash, h.Sum(nil)...), nil
